@@ -51,7 +51,10 @@ func runC20(r *Run) {
 	// create
 	cr := p.deliverEntry("DOMAIN_CREATE")
 	r.guardOb("C20.create", cr, "Domains.Set", callsTo(fnDomSet),
-		boolCallG("domain does not exist", false, []string{fnDomExists}, nil, msgF(p, "Name")), "an existing name can be overwritten (second owner)")
+		boolCallG("domain does not exist", false, []string{fnDomExists}, nil, func(v ssa.Value) bool {
+			// the submitted name, possibly normalised (C20.name checks that the stored name is normalised the same way)
+			return derivesFrom(v, msgF(p, "Name"))
+		}), "an existing name can be overwritten (second owner)")
 	r.guardOb("C20.create", cr, "Domains.Set", callsTo(fnDomSet),
 		errCallG("debit of msg.Owner succeeded", []string{fnBalMinus}, nil, msgF(p, "Owner"), coinFromMsg(p, "BuyingPrice")), "a domain is created without the price being paid by its owner")
 	// use of the parent record (sub-domain branch) only past the parent-owner equality
@@ -208,6 +211,8 @@ func runC20(r *Run) {
 		r.Viol("C20.subdomains", fname(isd), "range scan", "IterateSubDomain no longer uses State.IterateRange", p.pos(isd.Pos()), nil)
 	}
 	checkOptionsValidated(r, "C20.options", "ValidateONS", 2)
+	checkDomainNameRoutes(r)
+	checkGuardedSub(r, "C20.price", "/action/ons", 1)
 	r.Floor("C20.", 30)
 }
 
@@ -255,7 +260,13 @@ func checkExpiryFn(r *Run, name string, hasBase bool) {
 		c, ok := v.(*ssa.Call)
 		return ok && calleeName(c) == "(*math/big.Int).Cmp" && derivesFrom(c.Call.Args[0], func(y ssa.Value) bool { return y == ssa.Value(fn.Params[0]) })
 	}, token.GEQ, constIs(0))
-	edges := g.Edges(p, fn)
+	// the same test written from the threshold's side: threshold.Cmp(payment) <= 0
+	g2 := cmpG("threshold <= payment", func(v ssa.Value) bool {
+		c, ok := v.(*ssa.Call)
+		return ok && calleeName(c) == "(*math/big.Int).Cmp" && derivesFrom(c.Call.Args[1], func(y ssa.Value) bool { return y == ssa.Value(fn.Params[0]) }) &&
+			!derivesFrom(c.Call.Args[0], func(y ssa.Value) bool { return y == ssa.Value(fn.Params[0]) })
+	}, token.LEQ, constIs(0))
+	edges := append(g.Edges(p, fn), g2.Edges(p, fn)...)
 	ok := len(edges) > 0
 	for _, ret := range returnsOf(fn) {
 		if errMayBeNil(ret) && reachWithout(fn, edges)[ret.Block()] {
